@@ -84,9 +84,9 @@ PROPS = {
     'C12': dict(obligations=lambda: P('SqProps.C12'),
                 slices=['alias'], monitors=['c12'],
                 pending=['deepcopy_iso (the copy has the same aliasing-aware canonical form as the original); independence of the copy (copy_reaches_only_new_objects, stored_copy_is_independent) is proved']),
-    'C13': dict(obligations=lambda: P('SqProps.C13') + TIE_FN,
+    'C13': dict(obligations=lambda: P('SqProps.C13') + P('SqProps.C13All') + TIE_FN,
                 slices=['builtin_args'], monitors=['c13'],
-                pending=['Harmless for the remaining non-mutators', 'writes_classified for the machine step']),
+                pending=['writes_classified for the machine step (map / filter / reduce / sorted themselves write nothing: only their callbacks do); all 35 non-mutating table entries are proved']),
     'C14': dict(obligations=lambda: P('SqProps.C14') + T('SqTie.Consts', 'cast_dict_keys_tie'),
                 slices=['ops'], monitors=['c14'],
                 pending=['ops_refine for lists through the heap (the list object IS a mathematical list; index normalisation proved); dict ops_refine proved over all operation sequences']),
@@ -104,7 +104,7 @@ PROPS = {
                 pending=['machine-level closure: every lookupName call of a whole run asks for a name Mentions-ed by the tree or by an ast_names tree (one-step lemmas proved)']),
     'C19': dict(obligations=lambda: P('SqProps.C19'),
                 slices=['rand'], monitors=['c19'],
-                pending=['rand0_range ([0,1) for every generator state)', 'shuffle result is a permutation (length proved)']),
+                pending=[]),
     'C20': dict(obligations=lambda: P('SqProps.C20') + TIE_LEX,
                 slices=['errmsg'], monitors=['c20'],
                 pending=['the offending token handed to p_error is a token of the text (parser-level suffix property)']),
